@@ -28,6 +28,10 @@ func IntWidth(rt *rapid.T) uint64 {
 	).Draw(rt, "width")
 }
 
+// BoundaryArrayLens lets AnyType draw array lengths at the edges of the machine integer types (set by
+// the type-level check C16 only: module-level checks instantiate their types).
+var BoundaryArrayLens bool
+
 // AnyType draws an arbitrary type (including non-first-class ones when depth allows), for type-level tests.
 func AnyType(rt *rapid.T, u *am.Universe, depth int) *am.Type {
 	leaf := func() *am.Type {
@@ -65,7 +69,12 @@ func AnyType(rt *rapid.T, u *am.Universe, depth int) *am.Type {
 		}
 		return am.V(n, e)
 	case 5:
-		return am.A(rapid.Uint64Range(0, 20).Draw(rt, "alen"), elemOK(rt, u, depth-1, "array"))
+		n := rapid.Uint64Range(0, 20).Draw(rt, "alen")
+		if BoundaryArrayLens && rapid.IntRange(0, 4).Draw(rt, "bigalen") == 0 {
+			// lengths at the edges of the machine integer types (valid as a type; nothing is allocated)
+			n = rapid.SampledFrom([]uint64{255, 256, 65536, 1<<31 - 1, 1 << 31, 1<<32 - 1, 1 << 32, 1 << 53, 1<<63 - 1, 1 << 63, 1<<63 + 1, 1<<64 - 1}).Draw(rt, "alenBoundary")
+		}
+		return am.A(n, elemOK(rt, u, depth-1, "array"))
 	case 6, 7:
 		n := rapid.IntRange(0, 4).Draw(rt, "nfields")
 		var fs []*am.Type
